@@ -37,6 +37,7 @@ PROP = "C15"
 HANDLERS = [("native", XmlEventHandler), ("lxml", LxmlEventHandler)]
 DOCUMENTED = (ParserError, ConverterError, XmlContextError, XmlHandlerError)
 SUBST = [b"<", b"&", b'"', b"\x00", b"\xff", b">"]
+TRAILERS = [b"<x/>", b"stray text", b"</Root>", b"<", b"<Root/>", b"&amp;", b"<!-- ok -->x"]
 TINY_ALPHABET = [b"<", b"a", b">", b"/", b"&", b"\x00", b" ", b"\xff"]
 XSI = I.XSI
 WATCHDOG_S = 20
@@ -203,11 +204,13 @@ def apply_fault(root: I.El, f: tuple):
 
 
 @harness("c15.structural")
-def h_structural(ch: Chooser, vec: list, maxf: int):
+def h_structural(ch: Chooser, vec: list, maxf: int, seed: str | None = None):
     spec = G.model_from_vector(vec, maxf)
     model = G.Model(spec)
     try:
-        exprs = pick_instance(ch, spec, False)
+        exprs = pick_instance(ch, spec, False, seed)
+        if seed and not any(seed in e for e in exprs):
+            return {"skip": True, "reason": "seed construct not in this model"}
         obj = model.instance(exprs)
         ctx = XmlContext()
         r = call(XmlSerializer(context=ctx, config=SerializerConfig(xml_declaration=False), writer=LxmlEventWriter).render, obj)
@@ -248,8 +251,13 @@ def h_bytes(ch: Chooser, vec: list, maxf: int, lo: int, hi: int):
         if lo >= len(data):
             return {"skip": True, "reason": "offset beyond document"}
         off = lo + ch.choose(hi2 - lo, "offset", free=True)
-        op = ch.choose(2 + len(SUBST), "op", free=True)
-        if op == 0:
+        op = ch.choose(2 + len(SUBST) + (len(TRAILERS) if lo == 0 else 0), "op", free=True)
+        if op >= 2 + len(SUBST):
+            if off != lo:
+                return {"skip": True, "reason": "trailers are offset independent"}
+            t = TRAILERS[op - 2 - len(SUBST)]
+            bad_data, what = data + t, "trailing-garbage"
+        elif op == 0:
             bad_data, what = data[:off], "truncate"
         elif op == 1:
             bad_data, what = data[:off] + data[off + 1:], "delete-byte"
@@ -294,9 +302,9 @@ def h_json(ch: Chooser, vec: list, maxf: int):
             return {"skip": True, "reason": "not encodable"}
         data = e[1]
         keys = list(data)
-        faults = [("none",), ("empty-dict",), ("list-instead",), ("scalar-instead",), ("null",)]
+        faults = [("none",), ("empty-dict",), ("list-instead",), ("scalar-instead",), ("null",), ("list-of-scalars",), ("list-of-lists",), ("list-of-nulls",), ("derived-shape",)]
         for k in keys:
-            faults += [("delete-key", k), ("null-value", k), ("dict-value", k), ("list-value", k), ("str-value", k), ("int-value", k), ("nested-list", k), ("rename-key", k)]
+            faults += [("unwrap-key", k), ("delete-key", k), ("null-value", k), ("dict-value", k), ("list-value", k), ("str-value", k), ("int-value", k), ("nested-list", k), ("rename-key", k)]
         fi = ch.choose(len(faults), "fault")
         f = faults[fi]
         d = dict(data)
@@ -309,6 +317,21 @@ def h_json(ch: Chooser, vec: list, maxf: int):
             payload = 5
         elif f[0] == "null":
             payload = None
+        elif f[0] == "list-of-scalars":
+            payload = [1]
+        elif f[0] == "list-of-lists":
+            payload = [[]]
+        elif f[0] == "list-of-nulls":
+            payload = [None]
+        elif f[0] == "derived-shape":
+            payload = {"qname": "a", "type": None, "value": [1]}
+        elif f[0] == "unwrap-key":
+            inner = d.pop(f[1])
+            if isinstance(inner, dict) and len(inner) == 1:
+                k2, v2 = next(iter(inner.items()))
+                d[k2] = v2
+            else:
+                d[f[1]] = inner
         elif f[0] == "delete-key":
             del d[f[1]]
         elif f[0] == "null-value":
@@ -326,10 +349,12 @@ def h_json(ch: Chooser, vec: list, maxf: int):
         elif f[0] == "rename-key":
             d[f[1] + "X"] = d.pop(f[1])
         case = {"model": model.source.split("XmlTime\n", 1)[-1].strip(), "instance": model.instance_source(exprs), "fault": repr(f), "payload": repr(payload)[:500]}
-        for route in ("dict", "json", "json-truncated"):
+        for route in ("dict", "json", "json-truncated", "dict-untyped"):
             with warnings.catch_warnings():
                 warnings.simplefilter("ignore")
-                if route == "dict":
+                if route == "dict-untyped":
+                    r = guarded(DictDecoder(context=ctx).decode, payload, None)
+                elif route == "dict":
                     r = guarded(DictDecoder(context=ctx).decode, payload, model.root)
                 elif route == "json":
                     r = guarded(JsonParser(context=ctx).from_string, json.dumps(payload), model.root)
@@ -343,7 +368,7 @@ def h_json(ch: Chooser, vec: list, maxf: int):
                 ok_types = DOCUMENTED + ((json.JSONDecodeError,) if route != "dict" else ())
                 if not isinstance(r[1], ok_types):
                     return dict(ok=False, case=c, bucket=f"json/{f[0]}/{route}/leaks-{type(r[1]).__name__}", detail=f"{type(r[1]).__name__}: {r[1]}")
-            elif not isinstance(r[1], model.root):
+            elif route != "dict-untyped" and not isinstance(r[1], model.root):
                 return dict(ok=False, case=c, bucket=f"json/{f[0]}/{route}/returns-{type(r[1]).__name__}", detail=f"returned {r[1]!r}")
         return dict(ok=True, case=case, obs=f[0], nontrivial=h(repr(payload)) if fi else None, counters={"fault:json-" + f[0]: 1})
     finally:
@@ -360,6 +385,12 @@ def run(tier: str, seed: int) -> int:
     for v in vecs:
         tasks.append(("c15.structural", dict(vec=v, maxf=maxf), 1, ()))
         tasks.append(("c15.json", dict(vec=v, maxf=maxf), 1, ()))
+        spec = G.model_from_vector(v, maxf)
+        tags = set().union(*[f.tags for f in spec.fields])
+        if "wildcard" in tags:
+            tasks.append(("c15.structural", dict(vec=v, maxf=maxf, seed="Other("), 1, ()))
+        if "xsi" in tags:
+            tasks.append(("c15.structural", dict(vec=v, maxf=maxf, seed="Derived("), 1, ()))
     bvecs = G.enumerate_models(dm_bytes, maxf)
     for v in bvecs:
         for lo in range(0, 400, 50):
